@@ -77,6 +77,13 @@ func buildBlocks(env *runner.Env) {
 	for _, obj := range []int{2, 5, 29} {
 		blocks = append(blocks, block{"sample-entry", obj, 0})
 	}
+	nboxes := 48
+	if thorough {
+		nboxes = 2000
+	}
+	for i := 0; i < nboxes; i++ {
+		blocks = append(blocks, block{"sample-entry-boxes", i, 0})
+	}
 }
 
 func init() {
@@ -87,11 +94,14 @@ func init() {
 			"asc-random: 1000 random (objType, channel, 24-bit sampling, 24-bit extension) per block; " +
 			"asc-all-sampling / asc-all-extension (thorough): all 2^24 explicit values of that field, others fixed; " +
 			"adts-shape: objType 1..4 x freq index 0..15 x channel 0..7, each with buffer fullness {0,0x7ff,0x555} and payload lengths 0..8184 (quick: all lengths for 3 shapes, 64 boundary lengths for the others; thorough: all lengths for all shapes); " +
-			"adts-junk: junk length 0..187 x 6 junk kinds x 8 header shapes; sample-entry: SetAACDescriptor for 3 object types x all table and boundary explicit frequencies -> init encode/decode -> esds DecSpecificInfo -> DecodeAudioSpecificConfig. " +
+			"adts-junk: junk length 0..187 x 6 junk kinds x 8 header shapes; sample-entry: SetAACDescriptor for 3 object types x all table and boundary explicit frequencies (plus 65533..65538, 2^17-1..2^17+1, 2^23-2, 2^24-2: the widths of the mp4a samplerate field and of the 24-bit fields) -> init encode/decode (DecodeFile, DecodeFileSR) -> esds DecSpecificInfo -> DecodeAudioSpecificConfig, and the 16-bit integer part of the decoded mp4a samplerate field against the frequency passed in; " +
+			"sample-entry (6 fixed builds per object type) and sample-entry-boxes (4 random builds per block; quick 48, thorough 2000 blocks): init segments with 1..3 AAC tracks and 1..3 AAC entries per stsd (further mp4a entries built the same way and added with StsdBox.AddChild), every level esds/mp4a/stsd/stbl/minf/mdia/trak/moov encoded alone and decoded with DecodeBox from 4 reader kinds, DecodeBoxLazyMdat and DecodeBoxSR, the whole init with DecodeFile from 4 reader kinds, DecodeFile in lazy-mdat mode and DecodeFileSR; every decoded entry is compared with the configuration it was built from, and every decoded box is HELD while the next 4 boxes (of other builds, i.e. other configurations) are decoded and re-verified after each of them (DecoderSpecificInfo bytes as first seen, configuration, samplerate field). " +
 			"distinct_nontrivial counts distinct blocks in which at least one encode->decode round trip succeeded and was compared (block granularity: conservative); evaluations counts individual round trips.",
 		Assumptions: []string{
 			"reference bit layouts written from ISO/IEC 14496-3 Table 1.15 and ISO/IEC 13818-7 6.2 in ref/bitw (independent of mp4ff)",
 			"canonical configurations only: SBR/PS flags as implied by the object type, ExtensionFrequency 0 for AAC-LC",
+			"sample entry: the configuration of SetAACDescriptor(objType, f) is the documented one (stereo AAC-LC core at f Hz; HE-AAC: extension frequency 2f; HE-AAC v2: mono core + PS); the integer part of the mp4a samplerate field is f when f fits 16 bits and 0 (states no frequency; the builder's documented signal) when it does not",
+			"a decoded box is a value: what it says must not change when the library decodes another box later; inputs handed to the slice-reader decoders are left untouched while the decoded box is held (those decoders may alias their input)",
 		},
 		Exhaustive: func(tier string) bool { return tier == "thorough" },
 		Setup:      func(env *runner.Env) error { buildBlocks(env); return nil },
@@ -353,13 +363,15 @@ func run(c *runner.Ctx, idx int) {
 	case "sample-entry":
 		count(checkMultiTrackEntries(c, b.a))
 		count(checkRepeatedSet(c, b.a))
-		fs := append(append([]int{}, tableFreqs...), explicitSet...)
-		for _, f := range fs {
+		for _, f := range sampleEntryFreqs() {
 			if b.a != 2 && 2*f >= 1<<24 {
 				continue // 2f is not representable in the 24-bit extension field
 			}
 			count(checkSampleEntry(c, b.a, f))
 		}
+		runBuilds(c, fixedBuilds(c, b.a), count)
+	case "sample-entry-boxes":
+		runBuilds(c, randomBuilds(c), count)
 	}
 	c.Evals(n)
 	c.Count("roundtrips_ok", ok)
@@ -600,6 +612,10 @@ func checkSampleEntry(c *runner.Ctx, obj, f int) bool {
 		}
 		if *got != want {
 			c.Violation("sample-entry/config/"+cls, fmt.Sprintf("%s: sample entry decodes to %+v, implied configuration %+v", path, *got, want), det)
+			return false
+		}
+		// the entry's own statement of the frequency (16.16 samplerate field)
+		if !checkSampleRateField(c, stsd.Mp4a, entryCfg{obj, f}, "init "+path) {
 			return false
 		}
 	}
